@@ -45,7 +45,8 @@ class Prop:
                "nothing may go out twice); ONE dual-stack bind sending to alternating 127.0.0.1 / ::1 / second local IPv6 destinations from one "
                "goroutine (pooled destination address reused): every datagram arrives at its own destination; plain UDP sender -> bind without "
                "UDP_GRO, bursts with empty datagrams in one recvmmsg batch after a longer batch: every non-empty datagram keeps its size, "
-               "bytes and source; validates UdpGso.KernelSpec and the glue around the modelled core)"]
+               "bytes and source; the receiving bind opened with UDP_GRO off on one of its two sockets (each family uses its own rx offload "
+               "flag); one bind opened, used, closed and opened again (IPv4 and IPv6 send and receive after every Open); validates UdpGso.KernelSpec and the glue around the modelled core)"]
     rule = ("send vectors from one PRNG: equal/shrinking/growing runs, size 1, wireguard-like sizes, runs of 63..66 and 127/128 "
             "equal datagrams, totals crossing the 65507/65527 maximum, capacity exhaustion (cap = len + k*size), short tail then "
             "continuing, control buffer too small, v4/v6, with/without sticky source; receive vectors: GRO trains in receiveIP's "
@@ -67,7 +68,8 @@ class Prop:
                      "harness run-length encoder of byte strings (pattern runs; decoded and compared byte for byte in Go before use)",
                      "conn/verif_c18_linux.go: sets ep.src, switches offloads off on an open bind (add-only, verif tag)",
                      "conn/verif_c18b_linux.go: runs StdNetBind.send with a harness writer, replaces the packet conn Send writes to "
-                     "(fault injection: partial sendmmsg acceptance, EIO) (add-only, verif tag)"]
+                     "(fault injection: partial sendmmsg acceptance, EIO) (add-only, verif tag)",
+                     "conn/verif_c18c_linux.go: a control function run on the sockets the package opens (UDP_GRO off on one family) (add-only, verif tag)"]
 
     def __init__(self):
         self.dir = os.path.join(vlib.OUT, "C18")
@@ -264,7 +266,7 @@ class Prop:
                 if 1 <= L2 < L:
                     yield {"kind": "loop", "gen": case.get("gen"), "L": L2, "oracle": o}
             return
-        if k == "loopback" and case.get("pass") == "wire_partial":
+        if k == "loopback" and case.get("pass") in ("wire_partial", "reopen"):
             return
         if k in ("send", "loopback"):
             sizes, caps = case["sizes"], case.get("caps") or [65535] * len(case["sizes"])
@@ -306,6 +308,10 @@ class Prop:
     # ---- classification ---------------------------------------------------------------------
     def signature(self, case, f):
         k = case.get("kind")
+        if k == "loopback" and case.get("pass") == "reopen":
+            return "bind-reopened-after-close-%s-datagrams-not-delivered" % case.get("family")
+        if k == "loopback" and str(case.get("pass", "")).startswith("asym_"):
+            return "rx-offload-differs-per-family-%s-batch-not-delivered-intact" % case.get("family")
         if k == "loopback" and case.get("pass") in ("wire_eio", "wire_eio_partial"):
             sizes, got = case.get("sizes") or [], case.get("got_sizes") or []
             if not case.get("error"):
